@@ -11,8 +11,9 @@
       [Crash Violation]            icontract preconditions of [Range]/[InstructionSet],
       [Crash KeyError]             a dict lookup of [_relabel_in_place].
 
-    Modelled behaviour = the tree with the fixes proposed in docs/C18.md applied:
-    non-greedy quantifiers are translated like greedy ones (same full-match language). *)
+    Non-greedy quantifiers: [transform_regex] raises [NotImplementedError] when the
+    pattern contains one (known finding, see docs/C18.md); the [AssertionError] of
+    [transform_term] behind it is modelled too (unreachable through [translate]). *)
 From Coq Require Import List NArith Bool Arith.
 From Acg Require Import Base.Outcome Model.RevmTree.
 Import ListNotations.
@@ -138,6 +139,7 @@ Section Loops.
     end.
 
   Definition tr_quant (q : quant) (n : nat) : res (list leaf * nat) :=
+    if q_ng q then Crash AssertionError else
     if Nat.eqb (q_min q) 1 && match q_max q with Some 1 => true | _ => false end
     then body n
     else
@@ -345,8 +347,27 @@ Definition body_terms (r : regex) : list term :=
   | UNil => []
   end.
 
+(** [_CheckForNonGreedyQuantifiers] (visits the whole regex, anchors included) *)
+Fixpoint ng_v (v : value) : bool :=
+  match v with
+  | VGroup u => ng_u u
+  | _ => false
+  end
+with ng_t (t : term) : bool :=
+  match t with
+  | Term v None => ng_v v
+  | Term v (Some q) => q_ng q || ng_v v
+  end
+with ng_c (c : concat) : bool :=
+  match c with CNil => false | CCons t c' => ng_t t || ng_c c' end
+with ng_u (u : union) : bool :=
+  match u with UNil => false | UCons c u' => ng_c c || ng_u u' end.
+
+Definition greedy (r : regex) : bool := negb (ng_u r).
+
 Definition tr_regex (r : regex) : res (list leaf) :=
   if anchored r then
+    if ng_u r then Crash NotImplementedError else
     match tr_terms (body_terms r) 0 with
     | Ok (l, _) => Ok (l ++ [real IMatch])
     | Err e => Err e
@@ -486,8 +507,9 @@ Definition program (r : regex) : res (list instr) :=
   | Crash k => Crash k
   end.
 
-(** ** the front end's acceptance of a parsed pattern (with the proposed fix: a start
-    anchor anywhere but at the very beginning is reported as an error) *)
+(** ** the front end's acceptance of a parsed pattern
+    ([_verify_patterns_anchored_at_start_and_end]: anchored, and exactly one start
+    anchor in the whole pattern) *)
 Fixpoint starts_v (v : value) : nat :=
   match v with
   | VSym SStart => 1
